@@ -58,6 +58,7 @@ def unit(job, variant, pi, seed, length, fork_every):
             elif any(e["tag"] == Tag.REJECT for e in events):
                 out["foreign_rejects"] += 1
     out["skills"] = len(out["skills"])
+    out["reqs"], out["expect"], out["mstats"] = complib.harvest_model_requests(cmds, job, variant, per_key=10)
     out["sample"] = {"job": job, "plan": [command_text(c) for c in cmds][:10]}
     return out
 
@@ -71,7 +72,8 @@ def main(ck: Check):
     rng = ck.rng
     work = [(job, v, pi, ck.seed, rng.randint(*length), fork_every) for job in JOBS for v in variants for pi in range(plans_per)]
     tot = {"states": 0, "forks": 0, "valid_listed": 0, "foreign_rejects": 0, "skills": 0, "keydown_running_states": 0}
-    samples = []
+    samples, reqs, expect = [], [], []
+    mstats: dict = {}
     for args, out in pmap(unit, work, ck.budget_s * 0.7):
         if args is None:
             ck.notes.append(f"budget reached: {out}")
@@ -84,10 +86,22 @@ def main(ck: Check):
             ck.add_failing(f)
         if len(samples) < 3:
             samples.append(out["sample"])
+        reqs.extend(out["reqs"])
+        expect.extend(out["expect"])
+        complib.merge_stats(mstats, out["mstats"])
     with ck.locked():
         proved = ck.prove("Simaple.Props.C10")
         if not quick and proved:
             ck.leanchecker(["Simaple.Props.C10"])
+        res = ck.driver(reqs, timeout=900)
+    disagreements = 0
+    if res is not None:
+        for r, ex, rq in zip(res, expect, reqs):
+            if r.get("ok") != ex:
+                disagreements += 1
+                if disagreements <= 3:
+                    ck.broken.append({"kind": "correspondence", "point": "Model.Component vs the real reducer/view",
+                                      "request": rq, "model": r, "implementation": ex})
     ck.coverage.update({
         "evaluations": tot["states"] + tot["forks"],
         "distinct_nontrivial": tot["forks"],
@@ -99,6 +113,9 @@ def main(ck: Check):
                 "evaluations = states + forked uses; distinct_nontrivial = forked uses",
         "samples": samples,
         **tot,
+        "model_component_calls_compared": len(reqs),
+        "model_component_disagreements": disagreements,
+        "model_coverage": mstats,
     })
     ck.assumptions += ["'accepted' is read as: the used skill's own answer contains no REJECT"]
     ck.finish("proof",
